@@ -68,7 +68,12 @@ func c14Gen(seed uint64, run int, tier string) *Case {
 				if kind == "seqread" && cnt < flen/40+1 {
 					cnt = flen/40 + 1 // at most ~40 round trips per sequential pass
 				}
-				ops = append(ops, Op{K: kind, A: []int64{int64(f), int64(off), int64(cnt)}})
+				if r.Pct(12) {
+					// a further open of the same file (now and then by way of a symbolic link): what one handle
+					// writes, the others must read
+					ops = append(ops, Op{K: "reopen", A: []int64{int64(f), int64(r.Intn(2)), int64(r.Pick(0, 2, 2))}})
+				}
+				ops = append(ops, Op{K: kind, A: []int64{int64(f), int64(off), int64(cnt), int64(r.Intn(4))}})
 			}
 		}
 		c.Ops = append(c.Ops, Op{K: "caller", Sub: ops})
@@ -79,9 +84,14 @@ func c14Gen(seed uint64, run int, tier string) *Case {
 type c14File struct {
 	name  string
 	model []byte
-	fid   *go9p.Fid
-	file  *go9p.File
-	foff  int // model of the File's own offset
+	hs    []*c14Handle // every open handle of the file
+	*c14Handle         // the one the current operation uses
+}
+
+type c14Handle struct {
+	fid  *go9p.Fid
+	file *go9p.File
+	foff int // model of the File's own offset
 }
 
 func c14Exec(x *Ctx) {
@@ -156,12 +166,36 @@ func c14Caller(x *Ctx, u *UfsSys, clnt *go9p.Clnt, ci int, ops []Op) {
 				viol("e1-open", "FOpen(%q) of an existing %d-byte file failed: %v", name, len(content), err)
 				return
 			}
-			files[int(op.a(0))] = &c14File{name: name, model: append([]byte(nil), content...), fid: f.Fid, file: f}
+			h := &c14Handle{fid: f.Fid, file: f}
+			files[int(op.a(0))] = &c14File{name: name, model: append([]byte(nil), content...), hs: []*c14Handle{h}, c14Handle: h}
+			os.Symlink(name, filepath.Join(u.Root, name+".lnk"))
 			continue
 		}
 		f := files[int(op.a(0))]
 		if f == nil {
 			continue
+		}
+		if op.K == "reopen" {
+			osMark = len(x.S.OSLog)
+			name := f.name
+			if op.a(1) != 0 {
+				name += ".lnk"
+			}
+			g, err := clnt.FOpen(name, uint8(op.a(2)))
+			if err != nil {
+				viol("e1-open", "a further FOpen(%q, mode %d) failed: %v", name, op.a(2), err)
+				continue
+			}
+			f.hs = append(f.hs, &c14Handle{fid: g.Fid, file: g})
+			x.Probe("file-open-several-times")
+			continue
+		}
+		f.c14Handle = f.hs[0]
+		if len(op.A) > 3 {
+			f.c14Handle = f.hs[int(op.a(3))%len(f.hs)]
+		}
+		if f.fid.Mode&3 == go9p.OREAD && (op.K == "cwrite" || op.K == "fwrite" || op.K == "writeat" || op.K == "written") {
+			f.c14Handle = f.hs[0] // the first handle is open for reading and writing
 		}
 		osMark = len(x.S.OSLog)
 		off, cnt := int(op.a(1)), int(op.a(2))
@@ -334,7 +368,9 @@ func c14Caller(x *Ctx, u *UfsSys, clnt *go9p.Clnt, ci int, ops []Op) {
 		}
 	}
 	for _, f := range files {
-		f.file.Close()
+		for _, h := range f.hs {
+			h.file.Close()
+		}
 	}
 }
 
